@@ -183,6 +183,22 @@ example :
       = ([10, 11], .error) := by
   decide
 
+/-- the segment-size guess is wrong in either direction (real segment size 2): with guess 1 the first request of
+    `read(off = 1, size = 2)` is for segment 1, which does not hold byte 1 — WrongSegmentError, retried with the
+    real size; with guess 1 and `off = 2` the guessed segment 2 does not exist — BadSegmentNumberError, retried;
+    with guess 4 the guessed segment 0 is short of the real one and the loop simply continues.  In every case
+    exactly `ct[off, off+size)` is written (for all guesses and all server behaviour this is `read_prefix_correct`). -/
+example :
+    let cap := (upload exE exPrm exEncode exSer exCt).cap
+    let dec : Nat → List (Nat × Bytes) → Bytes := fun _ bl => (bl.head?.map (·.2)).getD []
+    read exE Cfg.asIs (fun _ => 0) dec cap 1 [[(0, exHonest 1)], [(0, exHonest 0)], [(0, exHonest 1)]] (Node.init SymH cap) 1 2
+      = ([11, 12], .done) ∧
+    read exE Cfg.asIs (fun _ => 0) dec cap 1 [[(0, exHonest 2)], [(0, exHonest 1)]] (Node.init SymH cap) 2 1
+      = ([12], .done) ∧
+    read exE Cfg.asIs (fun _ => 0) dec cap 4 [[(0, exHonest 0)], [(0, exHonest 1)]] (Node.init SymH cap) 1 2
+      = ([11, 12], .done) := by
+  decide
+
 /-- the same ciphertext encoded with segment size 1: its UEB is refused under the first cap -/
 example :
     let prm2 : Params := { k := 1, n := 1, segSize := 1 }
